@@ -1053,6 +1053,8 @@ def _check_error(s, st, ev, cur, desc, vio):
             cause = {'wait': 'Timeout:Wait', 'create': 'Timeout:Create', 'recycle': None}.get(e[4], cause)
     if cause is not None and desc != cause:
         vio('C04', f'get() returned {desc} but the failing step calls for {cause}')
+    if desc == 'Timeout:Recycle':
+        vio('C10', 'a recycle timeout surfaced as Timeout(Recycle): it counts as a rejected object, get() moves on to the next idle object or creates one')
     if cause is None and desc in ('Backend', 'PostCreateHook', 'Timeout:Create', 'Timeout:Recycle'):
         vio('C04', f'get() returned {desc} although no creation step failed in this call')
     if desc == 'Timeout:Wait' and cause is None:
